@@ -28,6 +28,15 @@ def check(repo, col, tier):
     col.rule("R-C14-fixpoint", "update_states(init_state(v)) == init_state(v) as a rational identity", 8)
     col.rule("R-C14-cover", "init_state returns every state that update_states evolves", 6)
     col.rule("R-C14-rows", "init_states gathers and writes with the channel's own presence rows", 5)
+    # the presence column init_states selects its rows by must survive a second insert of the same channel through another view
+    from . import c11 as _c11
+    col.rule("R-C14-basestate", "insert decides on the base module's current channel list whether the channel is new", 3)
+    _c11._basestate(repo, col, "R-C14-basestate")
+    # the keys init_state returns are the instance's own state names (built from self._name): a renamed channel initialises its own columns
+    from . import c04 as _c04
+    col.rule("R-C14-keys", "init_state reads and returns the declared keys of its own instance", 10)
+    for cinfo in kin.mech_classes(repo, "Channel"):
+        _c04._check_keys(repo, col, cinfo, "channel", "R-C14-keys", ("init_state",))
     for cinfo in kin.mech_classes(repo, "Channel"):
         name = cinfo.name
         fi_init = repo.method(name, "init_state")
@@ -221,9 +230,8 @@ def _rows(repo, col):
         res = T.find(kt, lambda x: x.op == "mcall" and x.name == "init_state")
         res2 = T.find(vt, lambda x: x.op == "mcall" and x.name == "init_state")
         # (key, value) of one element of <result>.items(); the value is normalised to <result>[key]
-        pair_a = kt.op == "item" and vt.op == "item" and kt.name == 0 and vt.name == 1 and kt.args[0].key() == vt.args[0].key()
-        pair_b = kt.op == "item" and kt.name == 0 and vt.op == "sub" and vt.args[1].key() == kt.key() and kt.args[0].op == "elem" and \
-            kt.args[0].args[0].op == "mcall" and kt.args[0].args[0].name == "items" and kt.args[0].args[0].args[0].key() == vt.args[0].key()
+        D_ = idx.dict_entry(kt, vt)   # (key, value) of one entry of init_state's result, however the loop over it is written
+        pair_a = pair_b = D_ is not None and D_.op == "mcall" and D_.name == "init_state"
         ok = res is not None and res2 is not None and (pair_a or pair_b)
         col.check(ok, "R-C14-rows", fi, "write-back keys and values come from init_state's result",
                   "each key returned by init_state is written with its own value",
